@@ -49,6 +49,7 @@ const (
 	hRaceRefresh // a peer asks for a ROUTE-REFRESH while another peer's update is in flight
 	hTwin        // another peer announces the route this peer has, attribute for attribute (two relays of one route)
 	hFlood       // several hundred host routes sharing one attribute set (the UPDATEs relaying them are filled to the size limit)
+	hApiHuge     // a local route whose attributes do not fit into a 4096-octet UPDATE: no peer can be told, everything else goes on
 )
 
 type h01Op struct {
@@ -113,8 +114,15 @@ func drawH01(t *rapid.T) h01Case {
 	if flood {
 		floodAt = rapid.IntRange(0, n-1).Draw(t, "flood_at")
 	}
+	hugeAt := -1
+	if rapid.IntRange(0, 5).Draw(t, "huge") == 0 {
+		hugeAt = rapid.IntRange(0, n-1).Draw(t, "huge_at")
+	}
 	for i := 0; i < n; i++ {
 		l := fmt.Sprintf("o%d", i)
+		if i == hugeAt {
+			c.Ops = append(c.Ops, h01Op{Kind: hApiHuge, PathID: 1, N: 2})
+		}
 		if i == floodAt {
 			c.Ops = append(c.Ops, h01Op{Kind: hFlood, Peer: rapid.IntRange(0, np-1).Draw(t, l+"fpeer"), Prefix: rapid.IntRange(0, 1).Draw(t, l+"fprefix"),
 				PathID: 1, Variant: rapid.IntRange(0, 4).Draw(t, l+"fvariant"), N: rapid.IntRange(2, 5).Draw(t, l+"fn")})
@@ -137,6 +145,7 @@ func drawH01(t *rapid.T) h01Case {
 type h01Route struct {
 	attrs rsAttrs
 	tag   uint32
+	huge  bool // cannot be sent on a session without Extended Message
 	uuid  []byte // of an API-added route (AddPath response)
 }
 
@@ -161,6 +170,7 @@ type h01Run struct {
 	raced   bool
 	twins   bool
 	flooded bool
+	huge    bool
 	// for the non-trivial rule
 	bestChangedAfterTold bool
 	told                 map[rsViewKey]bool
@@ -330,6 +340,19 @@ func (r *h01Run) apply(op h01Op) *verifkit.Failure {
 		}
 		otherUpdate(qi)
 		r.raced = true
+	case hApiHuge:
+		tag := r.nextTag(7)
+		a := rsAttrs{MED: -1, LocalPref: -1, Comms: []uint32{tag}, NextHop: "192.0.2.9"}
+		for i := 0; i < 1100; i++ {
+			a.Comms = append(a.Comms, uint32(64900<<16|i))
+		}
+		nlri, _ := bgp.NewIPAddrPrefix(rsPrefix(false, 250))
+		if _, err := n.s.AddPath(apiutil.AddPathRequest{Paths: []*apiutil.Path{{Family: bgp.RF_IPv4_UC, Nlri: nlri, Attrs: a.toBGP(nlri, false, 0)}}}); err != nil {
+			return r.fail("addpath", "%v", err)
+		}
+		r.local[rsViewKey{Prefix: nlri.String()}] = h01Route{attrs: a, tag: tag, huge: true}
+		r.huge = true
+		r.logf("API adds %s with 1101 communities (4.4 kB of attributes) tag %#x", nlri, tag)
 	case hFlood:
 		if !p.up {
 			return nil
@@ -684,6 +707,14 @@ func (r *h01Run) verify() *verifkit.Failure {
 		}
 	}
 	// ---- C01: wire views ----
+	isHuge := func(tag uint32) bool {
+		for _, rt := range r.local {
+			if rt.tag == tag && rt.huge {
+				return true
+			}
+		}
+		return false
+	}
 	find := func(src string, tag uint32) (*rsPeer, rsAttrs, bool) {
 		for _, p := range r.peers {
 			if p.spec.Addr != src {
@@ -763,6 +794,13 @@ func (r *h01Run) verify() *verifkit.Failure {
 			for pi, lp := range paths {
 				src, attrs, ok := find(lp.src, lp.tag)
 				if !ok {
+					continue
+				}
+				if isHuge(lp.tag) {
+					// does not fit into an UPDATE of this session: it cannot be told (and must not stop anything else)
+					if p.spec.SendMax == 0 && pi == 0 {
+						break
+					}
 					continue
 				}
 				in, _ := rsInbound(r.c.Global, src, attrs)
@@ -885,6 +923,9 @@ func runH01(t *testing.T) func(c h01Case, st *verifkit.Stats) *verifkit.Failure 
 			}
 			if r.flooded {
 				st.Label("flood-of-host-routes")
+			}
+			if r.huge {
+				st.Label("unsendable-route")
 			}
 			if c.Sched != 0 && simYieldAvailable {
 				st.Label("steered-schedule")
